@@ -179,9 +179,13 @@ pub fn activate_request_signed(
 }
 
 pub fn close_request(token: &NodeId) -> SupportedMessage {
+    close_request_with(token, true)
+}
+
+pub fn close_request_with(token: &NodeId, delete_subscriptions: bool) -> SupportedMessage {
     CloseSessionRequest {
         request_header: header(token),
-        delete_subscriptions: true,
+        delete_subscriptions,
     }
     .into()
 }
@@ -242,7 +246,7 @@ impl Prop for C19 {
     }
 
     fn gen(&self, rng: &mut Rng, n: usize, tier: Tier, out: &mut Vec<String>) {
-        let timeouts: [f64; 14] = [
+        let timeouts: [f64; 15] = [
             1000.0,
             1.0,
             2.0,
@@ -257,6 +261,7 @@ impl Prop for C19 {
             f64::NAN,
             f64::INFINITY,
             5e-324,
+            f64::NEG_INFINITY,
         ];
         for _ in 0..n {
             let chans = [1u32, 7, 0, u32::MAX];
@@ -279,11 +284,14 @@ impl Prop for C19 {
                 }
             };
             let svc = |rng: &mut Rng, t: &str| -> String {
-                match rng.weighted(&[4, 4, 1, 2]) {
+                match rng.weighted(&[4, 4, 1, 2, 3]) {
                     0 => format!("svc {} write {}", t, rng.below(1000)),
                     1 => format!("svc {} read", t),
                     2 => format!("svc {} browse", t),
-                    _ => format!("svc {} sub", t),
+                    3 => format!("svc {} sub", t),
+                    // Cancel, Call, Publish, TranslateBrowsePaths, RegisterNodes, TransferSubscriptions,
+                    // HistoryRead, DeleteNodes, QueryFirst: same validation in front of every service
+                    _ => format!("svc {} other {}", t, rng.below(9)),
                 }
             };
             for _ in 0..len {
@@ -334,13 +342,22 @@ impl Prop for C19 {
                     2 => {
                         let t = tok(rng, issued);
                         open.retain(|o| format!("{}", o.0) != t);
-                        out.push(format!("close {}", t));
+                        match rng.below(3) {
+                            0 => out.push(format!("close {}", t)),
+                            1 => out.push(format!("close {} 0", t)),
+                            _ => out.push(format!("close {} 1", t)),
+                        }
                     }
                     3 => {
                         let t = tok(rng, issued);
                         out.push(svc(rng, &t));
                     }
-                    4 => out.push("disc".to_string()),
+                    4 => match rng.below(5) {
+                        0 => out.push("disc".to_string()),
+                        1 => out.push("disc find".to_string()),
+                        2 => out.push("disc tok".to_string()),
+                        _ => out.push(format!("createx {}", rng.pick(&["null", "path", "junk"]))),
+                    },
                     5 => {
                         chan = if rng.chance(1, 2) { *rng.pick(&chans) } else { chan.wrapping_add(1) };
                         out.push(format!("setchan {}", chan));
@@ -590,10 +607,11 @@ impl S {
                     None => "err none".to_string(),
                 }
             }
-            ["close", t] => {
+            ["close", t, ..] => {
                 let token = self.token(t);
                 let idx = self.index_of(&token);
-                match self.timed_call(close_request(&token)) {
+                let delete_subscriptions = toks.get(2) != Some(&"0");
+                match self.timed_call(close_request_with(&token, delete_subscriptions)) {
                     Some(SupportedMessage::CloseSessionResponse(_)) => {
                         match idx {
                             Some(i) if self.refs[i].open => {
@@ -664,7 +682,77 @@ impl S {
                         priority: 0,
                     }
                     .into(),
+                    ["other", k] => match *k {
+                        "0" => CancelRequest {
+                            request_header: header(&token),
+                            request_handle: 1,
+                        }
+                        .into(),
+                        "1" => CallRequest {
+                            request_header: header(&token),
+                            methods_to_call: Some(vec![CallMethodRequest {
+                                object_id: ObjectId::Server.into(),
+                                method_id: NodeId::new(0, 11492u32),
+                                input_arguments: Some(vec![Variant::UInt32(1)]),
+                            }]),
+                        }
+                        .into(),
+                        "2" => PublishRequest {
+                            request_header: header(&token),
+                            subscription_acknowledgements: None,
+                        }
+                        .into(),
+                        "3" => TranslateBrowsePathsToNodeIdsRequest {
+                            request_header: header(&token),
+                            browse_paths: Some(vec![BrowsePath {
+                                starting_node: ObjectId::ObjectsFolder.into(),
+                                relative_path: RelativePath { elements: Some(vec![]) },
+                            }]),
+                        }
+                        .into(),
+                        "4" => RegisterNodesRequest {
+                            request_header: header(&token),
+                            nodes_to_register: Some(vec![ObjectId::ObjectsFolder.into()]),
+                        }
+                        .into(),
+                        "5" => TransferSubscriptionsRequest {
+                            request_header: header(&token),
+                            subscription_ids: Some(vec![1]),
+                            send_initial_values: false,
+                        }
+                        .into(),
+                        "6" => HistoryReadRequest {
+                            request_header: header(&token),
+                            history_read_details: ExtensionObject::null(),
+                            timestamps_to_return: TimestampsToReturn::Both,
+                            release_continuation_points: false,
+                            nodes_to_read: None,
+                        }
+                        .into(),
+                        "7" => DeleteNodesRequest {
+                            request_header: header(&token),
+                            nodes_to_delete: None,
+                        }
+                        .into(),
+                        _ => QueryFirstRequest {
+                            request_header: header(&token),
+                            view: ViewDescription {
+                                view_id: NodeId::null(),
+                                timestamp: DateTime::null(),
+                                view_version: 0,
+                            },
+                            node_types: None,
+                            filter: ContentFilter { elements: None },
+                            max_data_sets_to_return: 0,
+                            max_references_to_return: 0,
+                        }
+                        .into(),
+                    },
                     _ => return ("bad-op".to_string(), Verdict::Ok),
+                };
+                let other_kind: Option<String> = match rest {
+                    ["other", k] => Some(k.to_string()),
+                    _ => None,
                 };
                 let resp = self.timed_call(msg);
                 let (txt, fault) = match &resp {
@@ -693,7 +781,16 @@ impl S {
                             .unwrap_or(-1);
                         (format!("ok sub {}", n), false)
                     }
-                    Some(m @ SupportedMessage::ServiceFault(_)) => (format!("err {}", status_of(m).name()), true),
+                    // session validation answers with these two codes only; any other fault comes from the
+                    // service itself, i.e. the request got past validation (as does an asynchronous Publish)
+                    Some(m @ SupportedMessage::ServiceFault(_))
+                        if other_kind.is_none()
+                            || status_of(m) == StatusCode::BadSessionIdInvalid
+                            || status_of(m) == StatusCode::BadSessionNotActivated =>
+                    {
+                        (format!("err {}", status_of(m).name()), true)
+                    }
+                    Some(_) | None if other_kind.is_some() => (format!("ok other {}", other_kind.as_ref().unwrap()), false),
                     Some(_) => ("err unexpected-response".to_string(), true),
                     None => ("err none".to_string(), true),
                 };
@@ -729,16 +826,44 @@ impl S {
                 }
                 txt
             }
-            ["disc"] => {
-                let req: SupportedMessage = GetEndpointsRequest {
-                    request_header: header(&NodeId::null()),
-                    endpoint_url: UAString::from(ENDPOINT_URL),
-                    locale_ids: None,
-                    profile_uris: None,
+            ["createx", kind] => {
+                let mut req = create_session_request(1000.0);
+                if let SupportedMessage::CreateSessionRequest(ref mut r) = req {
+                    r.endpoint_url = match *kind {
+                        "null" => UAString::null(),
+                        "path" => UAString::from("opc.tcp://localhost:4855/no/such/path"),
+                        _ => UAString::from("not a url"),
+                    };
                 }
-                .into();
                 match self.timed_call(req) {
-                    Some(SupportedMessage::GetEndpointsResponse(_)) => "ok".to_string(),
+                    Some(SupportedMessage::CreateSessionResponse(_)) => {
+                        verdict = Verdict::fail("create_needs_endpoint", "createx", "session created for an endpoint url that matches no endpoint");
+                        "ok created".to_string()
+                    }
+                    Some(m) => format!("err {}", status_of(&m).name()),
+                    None => "err none".to_string(),
+                }
+            }
+            ["disc", ..] => {
+                let h = header(&if toks.get(1) == Some(&"tok") { self.token("1") } else { NodeId::null() });
+                let req: SupportedMessage = match toks.get(1).copied() {
+                    Some("find") => FindServersRequest {
+                        request_header: h,
+                        endpoint_url: UAString::from(ENDPOINT_URL),
+                        locale_ids: None,
+                        server_uris: None,
+                    }
+                    .into(),
+                    _ => GetEndpointsRequest {
+                        request_header: h,
+                        endpoint_url: UAString::from(ENDPOINT_URL),
+                        locale_ids: None,
+                        profile_uris: None,
+                    }
+                    .into(),
+                };
+                match self.timed_call(req) {
+                    Some(SupportedMessage::GetEndpointsResponse(_)) | Some(SupportedMessage::FindServersResponse(_)) => "ok".to_string(),
                     Some(m) => {
                         verdict = Verdict::fail("discovery_always", "disc", "discovery refused");
                         format!("err {}", status_of(&m).name())
